@@ -36,6 +36,8 @@ pub enum Clause {
     Order,
     MatDot,
     PanicAcc,
+    /// an event (or the observers after it) did not return within the watchdog limit
+    Hang,
     // ---- C12
     Neg,
     Clear,
@@ -47,7 +49,7 @@ pub enum Clause {
 }
 
 impl Clause {
-    pub const ALL: [Clause; 15] = [
+    pub const ALL: [Clause; 16] = [
         Clause::BitImage,
         Clause::IsZero,
         Clause::IsNar,
@@ -56,6 +58,7 @@ impl Clause {
         Clause::Order,
         Clause::MatDot,
         Clause::PanicAcc,
+        Clause::Hang,
         Clause::Neg,
         Clause::Clear,
         Clause::BitsRoundtrip,
@@ -74,6 +77,7 @@ impl Clause {
             Clause::Order => "order",
             Clause::MatDot => "matrix_dot",
             Clause::PanicAcc => "panic_accumulate",
+            Clause::Hang => "hang",
             Clause::Neg => "neg",
             Clause::Clear => "clear",
             Clause::BitsRoundtrip => "bits_roundtrip",
@@ -95,6 +99,7 @@ impl Clause {
             | Clause::NarSticky
             | Clause::Order
             | Clause::MatDot
+            | Clause::Hang
             | Clause::PanicAcc => Mode::C04,
             _ => Mode::C12,
         }
@@ -145,6 +150,8 @@ pub struct Runner<'a, S: Sut> {
     pub any_special: bool,
     last_kind: usize,
     last_abs: u32,
+    /// which property's check this run serves (decides how the other property's clauses are treated)
+    mode: Mode,
 }
 
 fn catch<T>(f: impl FnOnce() -> T) -> Result<T, String> {
@@ -187,7 +194,7 @@ fn abs_state(qt: QT, r: &Wide, poisoned: bool) -> u32 {
 }
 
 impl<'a, S: Sut> Runner<'a, S> {
-    pub fn new(init_via: u8, st: &'a mut Stats) -> Result<Self, Failure> {
+    pub fn new(init_via: u8, mode: Mode, st: &'a mut Stats) -> Result<Self, Failure> {
         let a = catch(|| S::init(init_via)).map_err(|m| Failure {
             clause: Clause::PanicState,
             step: 0,
@@ -209,6 +216,7 @@ impl<'a, S: Sut> Runner<'a, S> {
             any_special: false,
             last_kind: 99,
             last_abs: 0,
+            mode,
         };
         r.last_abs = abs_state(S::QT, &r.r, false);
         // the cleared quire must already satisfy the read-only observations
@@ -566,7 +574,19 @@ impl<'a, S: Sut> Runner<'a, S> {
         self.digest.bytes(ev.text().as_bytes());
         self.st.steps += 1;
         let kind = ev.kind();
-        let res = self.apply_inner(ev, step);
+        let mut res = self.apply_inner(ev, step);
+        if self.mode == Mode::C12 {
+            if let Err(f) = &res {
+                // a read-only observer disagrees with the reference but the accumulator image is
+                // right: that is C04's finding; the run goes on, so that the state operations are
+                // still exercised on this state (a split or round trip that returns the wrong
+                // round(s) is then a C12 violation in its own right)
+                if matches!(f.clause, Clause::IsZero | Clause::IsNar | Clause::ToPosit) {
+                    self.st.hit(Pr::c04_observer_in_c12);
+                    res = Ok(());
+                }
+            }
+        }
         self.evs.push(ev.clone());
         if res.is_ok() {
             self.note_transition(kind);
@@ -944,16 +964,16 @@ impl<'a, S: Sut> Runner<'a, S> {
 }
 
 /// Run a complete case through the replay path (no PRNG anywhere below this call).
-pub fn run_case(case: &Case, st: &mut Stats) -> (Outcome, u64) {
+pub fn run_case(case: &Case, mode: Mode, st: &mut Stats) -> (Outcome, u64) {
     match case.qt {
-        QT::Q8 => run_case_t::<softposit::Q8E0>(case, st),
-        QT::Q16 => run_case_t::<softposit::Q16E1>(case, st),
-        QT::Q32 => run_case_t::<softposit::Q32E2>(case, st),
+        QT::Q8 => run_case_t::<softposit::Q8E0>(case, mode, st),
+        QT::Q16 => run_case_t::<softposit::Q16E1>(case, mode, st),
+        QT::Q32 => run_case_t::<softposit::Q32E2>(case, mode, st),
     }
 }
 
-fn run_case_t<S: Sut>(case: &Case, st: &mut Stats) -> (Outcome, u64) {
-    let mut r = match Runner::<S>::new(case.init_via, st) {
+fn run_case_t<S: Sut>(case: &Case, mode: Mode, st: &mut Stats) -> (Outcome, u64) {
+    let mut r = match Runner::<S>::new(case.init_via, mode, st) {
         Ok(r) => r,
         Err(f) => return (Outcome::Fail(f), 0),
     };
